@@ -190,7 +190,7 @@ func init() {
 	// case: "<nreps> <declared features or -> <srv.script case...>": the REAL server (leg srv.script: one fresh
 	// process per run, so fresh map seeds and fresh scheduling) answers the same scripted session nreps times;
 	// observable: {STABLE} when all answers are identical, else {UNSTABLE}
-	register("c09.srvrep", func(line string) string {
+	srvrep := func(line string) string {
 		f := strings.SplitN(line, " ", 3)
 		if len(f) < 3 {
 			return "BAD-CASE"
@@ -213,7 +213,10 @@ func init() {
 			fmt.Fprintf(os.Stderr, "c09.srvrep answer:\n%s\n", first)
 		}
 		return "{STABLE}"
-	})
+	}
+	register("c09.srvrep", srvrep)
+	// the same observable for the workspaces of checks/c09.py gen_paramdefault (second field = the reference answer)
+	register("c09.paramdefault", srvrep)
 
 	// case: "<nreps> <entries> <structure> <queries> <srv.script case...>": a project-mode workspace (luahelper.json
 	// with ProjectFiles) in the REAL server, one fresh process per run; the script's query steps are go-to-definition
@@ -225,31 +228,86 @@ func init() {
 			return "BAD-CASE"
 		}
 		nreps, _ := strconv.Atoi(f[0])
-		var seen []map[string]bool
-		for run := 0; run < nreps; run++ {
-			o := legs["srv.script"](f[4])
-			if strings.HasPrefix(o, "CRASH") || strings.HasPrefix(o, "TIMEOUT") || strings.HasPrefix(o, "SETUP-ERROR") {
-				return o
-			}
-			parts := strings.Split(o, " | ")
-			if run == 0 {
-				seen = make([]map[string]bool, len(parts))
-				for i := range seen {
-					seen[i] = map[string]bool{}
-				}
-			} else if len(parts) != len(seen) {
-				return "SHAPE-CHANGED " + o
-			}
-			for i, p := range parts {
-				seen[i][strings.NewReplacer("{", "(", "}", ")", "|", "/").Replace(p)] = true
-			}
-		}
-		out := []string{}
-		for i := range seen {
-			out = append(out, c18Set(seen[i]))
-		}
-		return strings.Join(out, ";")
+		return c09SetsOverRuns(nreps, f[4], false)
 	})
+
+	// case: "<nreps> <expected answer sets, for the reference side only> <srv.script case with R: items>": project mode with
+	// SEVERAL entry files whose projects finish at very different times (one of them requires a file of tens of thousands
+	// of lines: item R:<hex relpath>:<count>:<hex head>:<hex line, `#` = line number>:<hex tail> stands for the F: item of
+	// that generated file). One fresh process per run, GOMAXPROCS unset / 2 / 1 in turn. Observable: per query step the SET
+	// of answers over the runs.
+	register("c09.entryorder", func(line string) string {
+		f := strings.SplitN(line, " ", 3)
+		if len(f) < 3 {
+			return "BAD-CASE"
+		}
+		nreps, _ := strconv.Atoi(f[0])
+		items := strings.Split(f[2], " ")
+		for i, it := range items {
+			if strings.HasPrefix(it, "R:") {
+				p := strings.Split(it, ":")
+				if len(p) != 6 {
+					return "BAD-CASE"
+				}
+				n, _ := strconv.Atoi(p[2])
+				tmpl := string(unhex(p[4]))
+				var sb strings.Builder
+				sb.Write(unhex(p[3]))
+				for k := 0; k < n; k++ {
+					sb.WriteString(strings.ReplaceAll(tmpl, "#", strconv.Itoa(k)))
+					sb.WriteByte('\n')
+				}
+				sb.Write(unhex(p[5]))
+				items[i] = "F:" + p[1] + ":" + hx([]byte(sb.String()))
+			}
+		}
+		return c09SetsOverRuns(nreps, strings.Join(items, " "), true)
+	})
+}
+
+// the scripted session (leg srv.script: one fresh server process per run) nreps times; per query step the set of answers
+func c09SetsOverRuns(nreps int, script string, varyProcs bool) string {
+	var seen []map[string]bool
+	if varyProcs {
+		old, had := os.LookupEnv("GOMAXPROCS")
+		defer func() {
+			if had {
+				os.Setenv("GOMAXPROCS", old)
+			} else {
+				os.Unsetenv("GOMAXPROCS")
+			}
+		}()
+	}
+	for run := 0; run < nreps; run++ {
+		if varyProcs {
+			if v := []string{"", "2", "1"}[run%3]; v == "" {
+				os.Unsetenv("GOMAXPROCS")
+			} else {
+				os.Setenv("GOMAXPROCS", v)
+			}
+		}
+		o := legs["srv.script"](script)
+		if strings.HasPrefix(o, "CRASH") || strings.HasPrefix(o, "TIMEOUT") || strings.HasPrefix(o, "SETUP-ERROR") {
+			return o
+		}
+		parts := strings.Split(o, " | ")
+		if run == 0 {
+			seen = make([]map[string]bool, len(parts))
+			for i := range seen {
+				seen[i] = map[string]bool{}
+			}
+		} else if len(parts) != len(seen) {
+			return "SHAPE-CHANGED " + o
+		}
+		for i, p := range parts {
+			seen[i][strings.NewReplacer("{", "(", "}", ")", "|", "/").Replace(p)] = true
+		}
+	}
+	out := []string{}
+	for i := range seen {
+		out = append(out, c18Set(seen[i]))
+	}
+	return strings.Join(out, ";")
 }
 
 // one fresh analysis of the directory, the way Initialize does it without a luahelper.json and all checks on
